@@ -705,12 +705,35 @@ func (x *run) ServeDNS(w dns.ResponseWriter, r *dns.Msg) {
 			}
 		}
 	}
+	var sendRawBytes func(b []byte)
 	sendRaw := func(m *dns.Msg) {
 		// the handler packs the reply itself and hands the octets to ResponseWriter.Write
 		b, perr := m.Pack()
 		if perr != nil {
 			return
 		}
+		sendRawBytes(b)
+	}
+	// signedOtherID: a reply to a verified signed request, signed as RFC 8945 wants it (over the request's MAC,
+	// original ID = the request's ID) - and then sent with another ID in its header, as a forwarder that
+	// renumbers its queries sends it on. The MAC verifies (verification puts the original ID back); the ID the
+	// client has to go by is the one in the header
+	signedOtherID := func(id uint16) []byte {
+		ts := r.IsTsig()
+		if !ex.plan.Tsig || ts == nil || w.TsigStatus() != nil {
+			return nil
+		}
+		m := mk(r.Id, 0)
+		m.SetTsig(ts.Hdr.Name, ts.Algorithm, 300, time.Now().Unix())
+		b, _, err := dns.TsigGenerate(m, tsigSecret, ts.MAC, false)
+		if err != nil || len(b) < 12 {
+			return nil
+		}
+		b[0], b[1] = byte(id>>8), byte(id)
+		x.bump("fault.signed_reply_with_another_id_in_its_header")
+		return b
+	}
+	sendRawBytes = func(b []byte) {
 		k.Lock()
 		wi := len(ex.written)
 		ex.written = append(ex.written, clone(b))
@@ -777,9 +800,17 @@ func (x *run) ServeDNS(w dns.ResponseWriter, r *dns.Msg) {
 		}
 		k.Unlock()
 	case "wrongid":
+		if b := signedOtherID(r.Id ^ 0x8000); b != nil {
+			sendRawBytes(b)
+			break
+		}
 		send(mk(r.Id^0x8000, p.ReplySize)) // an ID no exchange of this run uses
 	case "wrongthenright":
-		send(mk(r.Id^0x4000, 0))
+		if b := signedOtherID(r.Id ^ 0x4000); b != nil {
+			sendRawBytes(b)
+		} else {
+			send(mk(r.Id^0x4000, 0))
+		}
 		k.Yield("h.between", 0)
 		send(mk(r.Id, p.ReplySize))
 	case "twice":
